@@ -63,6 +63,7 @@ Definition fields_of (e : entry) : bytes :=
 
 (* compact notation used by the generated case files: [len] bytes of a little-endian number *)
 Definition B (n : nat) (x : N) : bytes := le_bytes n x.
+Definition B8 (l : list N) : bytes := flat_map (le_bytes 8) l.
 
 Definition frame (body : bytes) : bytes := le_bytes 4 (len body) ++ body.
 
